@@ -53,12 +53,21 @@ type ScriptEntry struct {
 	Cond  Rep
 }
 
+// FaultSpec: the N-th store operation of the case (counted from 0 over the whole case) fails.
+// Kind: "err" (the operation returns an error; a Set / Delete is not performed), "garbage" (a Get returns bytes that do
+// not decode), "null" (a Get returns the JSON text [null]), "trunc" (a Get returns the first half of the stored bytes).
+type FaultSpec struct {
+	N    int
+	Kind string
+}
+
 type Case struct {
 	ID         string
 	Stream     string // "M" compared with the model, "W" monitor only
 	SWRTimeout time.Duration
 	Reqs       []Req
 	Script     []ScriptEntry
+	Faults     []FaultSpec
 	Note       string
 }
 
@@ -103,8 +112,42 @@ func (c *Case) Encode() string {
 		writeRep(&b, s.Cond)
 		b.WriteString("\n")
 	}
+	for _, f := range c.Faults {
+		fmt.Fprintf(&b, "FAULT %d %s\n", f.N, f.Kind)
+	}
 	b.WriteString("END\n")
 	return b.String()
+}
+
+// faultHook turns a fault plan into the recConn hook.
+func faultHook(plan []FaultSpec, inner func() driver.Conn) func(op, key string, n int) *faultAction {
+	if len(plan) == 0 {
+		return nil
+	}
+	byN := map[int]string{}
+	for _, f := range plan {
+		byN[f.N] = f.Kind
+	}
+	return func(op, key string, n int) *faultAction {
+		kind, ok := byN[n]
+		if !ok {
+			return nil
+		}
+		switch {
+		case kind == "err" || op != "get":
+			return &faultAction{Err: errors.New("injected store fault")}
+		case kind == "garbage":
+			return &faultAction{Data: []byte("\x00\xffnot a stored value\n\n{")}
+		case kind == "null":
+			return &faultAction{Data: []byte("[null]")}
+		default: // trunc
+			data, err := inner().Get(key)
+			if err != nil {
+				return &faultAction{Err: err}
+			}
+			return &faultAction{Data: data[:len(data)/2]}
+		}
+	}
 }
 
 // ---------- event recording ----------
